@@ -206,7 +206,6 @@ def tomlFront (j : J) (k : T → String) : String :=
 
 def runLoad (r : Report) (s : Section) (l : Line) (fs : Fields) (strict : Bool) (j : J) (j2 : Option J) : Report := Id.run do
   let mut r := r
-  let info := infoOf (.struct fs)
   -- model: the generic trees behind the front ends, and every decoder
   let jy := yamlGlue (embY j)
   r := checkTok r s l "jy" (printTree jy)
@@ -252,7 +251,7 @@ def runLoad (r : Report) (s : Section) (l : Line) (fs : Fields) (strict : Bool) 
     if noNull j ∧ oLJ ≠ oLY then r := r.addCover "json-yaml-differ-out-of-scope"
   match j2 with
   | some j2 =>
-    if recasedVal info j j2 then
+    if recasedTy (.struct fs) j j2 then
       if noCaseCollision j ∧ noCaseCollision j2 then
         r := r.addCover (if j = j2 then "recase-identical" else "recase-checked")
         let oRJ := np ((obs? l.obs "RJ").getD "?")
